@@ -62,7 +62,7 @@ impl<'a> Found<'a> {
 
 fn is_printable_ascii(byte: u8) -> bool {
 	if byte >= 0x20 {
-		byte < 0x80
+		byte < 0x7f
 	}
 	else {
 		(1 << byte as u32) & (1 << b'\n' | 1 << b'\r' | 1 << b'\t') != 0
